@@ -9,6 +9,7 @@ mod script;
 mod trace;
 mod xval;
 mod checks_e1;
+mod units;
 
 fn usage() -> ! {
     eprintln!("usage: verif-harness <C01..C18> <quick|thorough>\n       verif-harness --replay <file>");
@@ -45,6 +46,9 @@ fn main() {
     }
     let code = match prop {
         "C01" | "C02" | "C03" | "C05" | "C17" | "C04" | "C06" | "C10" => checks_e1::check(prop, tier),
+        "C15" => checks_e1::check_c15(tier),
+        "C16" => units::c16(tier),
+        "C18" => units::c18(tier),
         _ => {
             eprintln!("unknown property {prop}");
             2
